@@ -460,3 +460,31 @@ func VH_number(n int) {
 		verifAssert("literal-value-is-parsefloat-of-transliterated-lexeme", isF && (v == want || (v != v && want != want)))
 	}
 }
+
+// VH_integer (C10): an integer literal of n digits (either script, any mixture) denotes the
+// double nearest to its exact value. Here strconv.ParseFloat is not left uninterpreted: for
+// digit strings of up to 19 digits the stub carries its documented contract (round to nearest
+// even of the exact integer), so a literal computed any other way must agree with it.
+func VH_integer(n int) {
+	verifOption("parsefloat-exact-integers")
+	verifOption("summarise-transliteration")
+	src := make([]rune, n)
+	for i := 0; i < n; i++ {
+		src[i] = verifNondetRune()
+		verifAssume(sDigit(src[i]))
+	}
+	utils.HadError = false
+	s := NewScanner(src)
+	s.scanToken()
+	ascii := make([]rune, n)
+	for i := 0; i < n; i++ {
+		ascii[i] = sDigitValue(src[i])
+	}
+	want, err := strconv.ParseFloat(string(ascii), 64)
+	verifAssert("integer-literal-parses", err == nil)
+	verifAssert("integer-literal-is-one-token", len(s.tokens) == 1 && !utils.HadError && s.current == n)
+	if len(s.tokens) == 1 {
+		v, isF := s.tokens[0].Literal.(float64)
+		verifAssert("integer-literal-denotes-the-nearest-double", isF && v == want)
+	}
+}
